@@ -154,7 +154,13 @@ theorem later_call_keeps_attributes (arch : Arch) (sg : Sg) (s q f : MemTensor) 
       rw [hp] at h
       simp only [Option.isNone_some, Bool.and_self, Bool.false_eq_true, if_false] at h
       cases hv : f.values with
-      | none => simp [hv] at h
+      | none =>
+        simp only [hv] at h
+        split at h
+        · simp only [Except.ok.injEq] at h
+          subst h
+          exact ⟨_, _, rfl, rfl, rfl, rfl, rfl, rfl⟩
+        · cases h
       | some vals =>
         simp only [hv] at h
         cases ha : applyItems (sgItems sg) vals with
